@@ -246,7 +246,7 @@ func c06EcoUnit(name string, lvl int) core.Unit {
 
 func c06VersUnit(lvl int) core.Unit {
 	return core.Unit{Name: "C06/vers", Weight: 12, Run: func(r *core.Result) {
-		alpha := gen.Chars("01a.-|*=<>! ~:/v")
+		alpha := gen.Chars("01a.-|*=<>! ~:/v%")
 		L := 3
 		if lvl > 0 {
 			L = 4
@@ -289,7 +289,7 @@ func c06VersUnit(lvl int) core.Unit {
 		// several intervals where a later one carries a token that may parse as a version of the
 		// scheme but cannot be written into a native range (or is simply invalid): the answer for
 		// a probe inside an earlier interval must still be value xor error
-		nasty := []string{"3,0", "[3", "3]", "(3", "3)", "3;0", "3 0", "3&4", "3*", "3.x", "^3", "~3", "3-4", "3 - 4", "3@dev", "3||4", "3,", ",3", "3 ", "3\t0", "not-a-version", "3..0", "3.0-", "", "v", "3+", "+3", "3_0", "3:0", "3!0", "9999999999999999999999"}
+		nasty := []string{"3%2", "3%", "%zz", "3%2e0", "3,0", "[3", "3]", "(3", "3)", "3;0", "3 0", "3&4", "3*", "3.x", "^3", "~3", "3-4", "3 - 4", "3@dev", "3||4", "3,", ",3", "3 ", "3\t0", "not-a-version", "3..0", "3.0-", "", "v", "3+", "+3", "3_0", "3:0", "3!0", "9999999999999999999999"}
 		for _, sch := range eco.Schemes {
 			for _, a := range nasty {
 				for _, b := range append([]string{"4", "4.0.0"}, nasty[:6]...) {
